@@ -201,6 +201,13 @@ def _run_history(task, seq, split, out, only=False):
             if got_t.dtype != dt:
                 out["violations"].append(violation(PID, case, dict(f, sub="scale_dtype"), f"scale_dtype: {which} of module {n} is {got_t.dtype} in a {dtname} model"))
             tol = 32 * u * abs(want) + 4 * num.QSUB[dtname]
+            import math
+
+            if not math.isfinite(want):
+                # the float model itself overflows on this history (e.g. float16 with a batch of amplitude 57344): the
+                # averaging law then only requires the same non-finite value
+                if got == want or (math.isnan(want) and math.isnan(got)) or not math.isfinite(got):
+                    continue
             if not (abs(got - want) <= tol):
                 out["violations"].append(violation(PID, case, f, f"{which}: module {n} ({type(m).__name__}) has {which}={got!r} after history {seq} (split {split}, momentum {mom}, {aname}); the momentum average of absmax/qmax is {want!r}"))
         if len(seq) == 1:
